@@ -294,12 +294,21 @@ Inductive op :=
 | Close (w : N)
 | Delete (a b : Z).
 
-(* func (db *DB) OpenWriter(ctx, cfg).  (WriterConfig.Validate always returns nil.) *)
+(* func (w WriterConfig) Validate() error; true = passes.
+   v.Ternary("end", !w.End.IsZero() && w.End.Before(w.Start), ...); return v.Error() *)
+Definition cfg_validate (start end_ : Z) : bool :=
+  negb (negb (ts_is_zero end_) && (end_ <? start)).
+(* The pinned upstream tree returned nil unconditionally (finding F19, fixed in /repo). *)
+Definition cfg_validate_upstream (start end_ : Z) : bool := true.
+
+(* func (db *DB) OpenWriter(ctx, cfg): config.New (Override + Validate), overlap check,
+   acquireWriter, End resolution. *)
 Definition open_writer (st : db) (w : N) (start end_ : Z) (key : N) : db * res :=
   match d_writers st !! w with
   | Some _ => (st, RBadOp)
   | None =>
-      if idx_overlap (d_ptrs st) (cfg_domain start end_) then (st, RErr EConflict)
+      if negb (cfg_validate start end_) then (st, RErr EOther)
+      else if idx_overlap (d_ptrs st) (cfg_domain start end_) then (st, RErr EConflict)
       else
         let '(k, size, fs') := acquire (d_nominal st) (d_files st) key in
         let preset := negb (ts_is_zero end_) in
@@ -336,6 +345,13 @@ Definition resolve_commit_end (cap : N) (wr : writer) (end_ : Z) : Z * bool :=
 
 (* func (w *Writer) validateCommitRange(end, switchingFile) error; true = passes *)
 Definition validate_commit_range (wr : writer) (end_ : Z) (switching : bool) : bool :=
+  if negb (ts_is_zero (w_prev wr)) && negb (switching && w_preset wr) && (end_ <? w_prev wr)
+  then false
+  else if negb (w_start wr <? end_) then false
+  else true.
+(* The pinned upstream tree skipped the previous-commit test on every file switch
+   (finding F18, fixed in /repo). *)
+Definition validate_commit_range_upstream (wr : writer) (end_ : Z) (switching : bool) : bool :=
   if negb (ts_is_zero (w_prev wr)) && negb switching && (end_ <? w_prev wr) then false
   else if negb (w_start wr <? end_) then false
   else true.
